@@ -212,3 +212,42 @@ Proof.
   destruct P as (P0 & P1 & P2).
   exists s, 1%nat, 2%nat. split; [reflexivity|]. split; [exact P0|]. split; [exact P1|]. split; [exact P2 | discriminate].
 Qed.
+
+(** ** 5. one write gap longer than the retries (slow storage)
+
+    The repaired code ([cfg_slow]: both fixes) on storage where a heartbeat's truncate ->
+    write gap lasts up to 2 s (H-live(eps) with eps = 2 s).  The holder's first heartbeat
+    truncates at 5 s; the waiter reads the empty file eight times, 250 ms apart, all within
+    that ONE gap, treats the live lock as stale, removes it and creates its own; the
+    heartbeat then writes the unlinked file.  Two holders, nobody killed, the heartbeat on
+    time.  The empty-count reset cannot help: there is no successful read in between. *)
+Definition cfg_slow : config := Config (5 * sec) sec 2 8 250000000 true true (2 * sec) (2 * sec).
+Definition gap_poll : list label := [LTick 250000000; LWake 1%nat; LTryCreate 1%nat; LOpenRead 1%nat].
+Definition long_gap_run : list label :=
+  [LStart 0 0; LTryCreate 0; LWriteMeta 0; LStart 1 1; LTryCreate 1; LOpenRead 1;
+   LTick (5 * sec); LHbWake 0; LWake 1; LTryCreate 1; LOpenRead 1]%nat ++
+  gap_poll ++ gap_poll ++ gap_poll ++ gap_poll ++ gap_poll ++ gap_poll ++ gap_poll ++
+  [LRemove 1; LTryCreate 1; LWriteMeta 1; LHbWrite 0]%nat.
+
+Lemma long_gap_proj :
+  match run cfg_slow init long_gap_run with
+  | Some s => cs s 0%nat = CHolding 0%nat /\ cs s 1%nat = CHolding 1%nat /\ now s = 6750000000
+  | None => False
+  end.
+Proof. vm_compute. repeat split; reflexivity. Qed.
+
+Theorem mutex_refuted_long_write_gap :
+  exists s i1 i2, run cfg_slow init long_gap_run = Some s /\
+    (forall p, ~ In (LKill p) long_gap_run) /\
+    cs s 0%nat = CHolding i1 /\ cs s 1%nat = CHolding i2 /\ i1 <> i2 /\
+    now s < 5 * sec + eps cfg_slow.
+Proof.
+  pose proof long_gap_proj as P.
+  destruct (run cfg_slow init long_gap_run) as [s|]; [|contradiction].
+  destruct P as (P1 & P2 & P3).
+  exists s, 0%nat, 1%nat. split; [reflexivity|]. split.
+  - intros p H.
+    assert (F : forallb (fun l => negb (is_kill l)) long_gap_run = true) by (vm_compute; reflexivity).
+    rewrite forallb_forall in F. specialize (F _ H). discriminate.
+  - rewrite P3. split; [exact P1|]. split; [exact P2|]. split; [discriminate | cbn; unfold sec; lia].
+Qed.
